@@ -802,7 +802,11 @@ class Normaliser:
                             g_ = next(iter(gone))
                             n_ = next(iter(new_l))
                             used = {x.id for x in ast.walk(f) if isinstance(x, ast.Name)} | {x.arg for x in ast.walk(f) if isinstance(x, ast.arg)}
-                            if g_ not in used and n_ in af[1]:
+                            # not for throw-away names, and not when the new local is a mere alias of a reference path (the forward
+                            # substitution removes such a local; under a known name it would stay)
+                            binds_ = [st_.value for st_ in ast.walk(f) if isinstance(st_, ast.Assign) and any(isinstance(t_, ast.Name) and t_.id == n_ for t_ in st_.targets)]
+                            alias_ = bool(binds_) and all(_is_path(b_) for b_ in binds_)
+                            if g_ not in used and n_ in af[1] and len(g_) >= 3 and not g_.startswith('_') and binds_ and not alias_:
                                 rename_locals(f, {n_: g_})
                                 self.log.append(f'N10 {path}::{q}: the only new local {n_} takes the name of the only local that disappeared ({g_})')
         self._collect()
